@@ -3,6 +3,8 @@ CONSTANTS
   MaxTraits = 2
   MaxTAttrs = 0
   MaxMembers = 2
+  MaxVFields = 0
+  VFMenu = {}
   MaxMAttrs = 1
   DTs = {"struct"}
   Shapes = {"named", "tuple"}
